@@ -14,7 +14,9 @@ def showOpenRes : OpenRes → String
   | .serverError msg =>
     -- "Protocol error: Protocol error: Server error: <text>"
     let parts := msg.splitOn "Server error: "
-    "err-server " ++ hexOfBytes (asciiBytes (parts.getD 1 ""))
+    let raw := asciiBytes (parts.getD 1 "")
+    -- a reason that is not UTF-8 reaches the caller through a lossy conversion: canonical form `lossy`
+    if ByteArray.validateUTF8 (ByteArray.mk raw.toArray) then "err-server " ++ hexOfBytes raw else "err-server lossy"
   | .sessionError => "err-session"
   | .closedByPeer => "err-fin"
   | .timeout => "err-timeout"
